@@ -3,6 +3,7 @@ package c10
 
 import (
 	"fmt"
+	"net/http"
 	"net/http/httptest"
 	"strings"
 	"testing"
@@ -224,3 +225,43 @@ func propForwardHistory(t *rapid.T) {
 }
 
 func TestPropForwardHistory(t *testing.T) { rapid.Check(t, propForwardHistory) }
+
+// propHandlerFuncHistory: a rux.HandlerFunc used directly as an http.Handler (HandlerFunc.ServeHTTP) gives its
+// handler a context as well.  Whatever earlier calls did to theirs, every call starts from a context that looks
+// exactly like one made the documented way (&rux.Context{} + Init) for the same writer and request, and answers as
+// the model of a chain of one handler says.
+func propHandlerFuncHistory(t *rapid.T) {
+	ev.Case()
+	w := chain.NewWorld()
+	n := rapid.IntRange(2, 8).Draw(t, "ncalls")
+	polluted := false
+	for i := 0; i < n; i++ {
+		s := chain.GenScript(t, w, "hf", chain.ScriptCfg{Writes: true, Data: true, Pollute: true, Abort: 3, Nexts: []int{0, 0, 1}})
+		st := w.NewRequest("GET", "/direct")
+		snap := ""
+		st.First = func(c *rux.Context) { snap = snapshot(c, st, nil) }
+		var h http.Handler = rux.HandlerFunc(w.Handler(s))
+		h.ServeHTTP(st.Rec, st.Req)
+		ev.Eval()
+		fresh := &rux.Context{}
+		fresh.Init(st.Rec, st.Req)
+		// status and length of the fresh context are read before anything was written through it: the pristine values
+		wantSnap := snapshot(fresh, st, nil)
+		ctx := fmt.Sprintf("call %d of %d, script %s", i, n, s)
+		if snap != wantSnap {
+			t.Fatalf("context seen by a HandlerFunc used as http.Handler:\n   %s\na context made by Init for the same writer and request:\n   %s\n%s", snap, wantSnap, ctx)
+		}
+		want, _ := chain.ModelDispatch([]*chain.Script{s}, chain.Hooks{}, chain.NewRec(), st.Req, nil, false)
+		got := chain.Outcome{Trace: st.Tr.String(), Log: st.Rec.Log()}
+		if d := chain.Diff(got, want); d != "" {
+			t.Fatalf("HandlerFunc.ServeHTTP: %s\n%s", d, ctx)
+		}
+		if polluted {
+			ev.Class("HandlerFunc-call-after-a-polluting-call")
+			ev.NonTrivial(fmt.Sprint(i, s), func() string { return ctx })
+		}
+		polluted = polluted || polluting(got.Trace, []*chain.Script{s})
+	}
+}
+
+func TestPropHandlerFuncHistory(t *testing.T) { rapid.Check(t, propHandlerFuncHistory) }
